@@ -40,6 +40,8 @@ def strat_paths():
     @st.composite
     def case(draw):
         C = draw(st.integers(2, 7))
+        if draw(st.integers(0, 19)) == 0:
+            C = draw(st.sampled_from([256, 257, 300, 700]))      # character tables of CJK-sized alphabets (decode unit only)
         big = draw(st.integers(0, 9)) == 0          # realistic sizes: hundreds of frames, a full batch
         T = draw(st.integers(100, 400)) if big else draw(st.integers(1, 14))
         N = draw(st.integers(6, 16)) if big else draw(st.integers(1, 5))
@@ -131,8 +133,14 @@ def body_decode(ctx, case):
         ctx.event("construction_rejected")
         return
     tab = table_for(seed)
+    if C > len(tab) + 1:
+        tab = [chr(0x4e00 + i) for i in range(C - 1)]
+        ctx.event("table_of_more_than_255_classes")
     chars = tab[:C - 1] + ["​"]
-    want = [ref_collapse(p, blank, chars) for p in paths]
+    if seed % 3 == 0:
+        chars = tab[:C - 1]         # a table of the C-1 real characters only: the blank (last class) never needs an entry
+        ctx.event("table_without_blank_entry")
+    want = [ref_collapse(p, blank, tab[:C - 1] + ["?"]) for p in paths]
     if tab is not CHARS:
         ctx.event("table_with_zero_width_or_space_characters")
     t_in = torch.from_numpy(sc.copy())
@@ -168,6 +176,9 @@ def get_engine(C, seed=0):
 def body_engine(ctx, case):
     from vlib.stubs import paint_logits
     C, paths, margin, seed = case
+    if C > 8:
+        ctx.event("large_table_skipped(decode unit only)")
+        return
     blank = C - 1
     eng = get_engine(C, seed)
     rs = np.random.RandomState(seed)
